@@ -7,6 +7,8 @@ activity schedule in virtual time:
   silent      connects and never sends
   dribble     sends pieces of a request that never completes, at generated cycles
   persistent  sends one complete HTTP/1.1 keep-alive request, gets its answer, then stays idle
+  stalled     sends one complete non-persistent (HTTP/1.0) request and never reads: every send of
+              the answer would-blocks, so no byte moves in either direction afterwards
 
 Deadline model, evaluated at every service call (tyme t, tock dt): D = tyme of the service
 call that last saw traffic on the connection (accept, bytes received or sent) + tymeout.
@@ -23,7 +25,7 @@ from vlib.core import Result
 PID = "C12"
 RULE = ("cases: server kind (WSGI Server / BareServer) x tymeout in {0.25 .. 8, default} x tock in {1/32 .. 1} (dyadic, at most 128 "
         "tocks per tymeout) x 1-3 connections with schedules silent / dribble (1-6 pieces at generated gaps, some shorter and "
-        "some longer than the tymeout) / persistent request then idle, connected at generated cycles, run for 3 tymeouts past the "
+        "some longer than the tymeout) / persistent request then idle / non-persistent request whose answer would-blocks for ever, connected at generated cycles, run for 3 tymeouts past the "
         "last scheduled activity; non-trivial = some connection has earlier traffic bursts (>= 2 pieces) and then a gap >= tymeout; "
         "distinct = canonical hash")
 ASSUMPTIONS = [
@@ -34,6 +36,7 @@ ASSUMPTIONS = [
 ]
 
 PERSIST_REQ = b"GET /p HTTP/1.1\r\nHost: x\r\nContent-Length: 0\r\n\r\n"
+STALL_REQ = b"GET /s HTTP/1.0\r\nHost: x\r\n\r\n"
 
 
 def app(environ, start_response):
@@ -60,6 +63,9 @@ def run_case(case):
             for gap, n in c["pieces"]:
                 t += max(1, gap)
                 ev[t] = b"X" * max(1, n) if ev else b"GET /d HTTP/1.1\r\nHost: x\r\nX-Pad: "
+        elif c["kind"] == "stalled":
+            # a non-persistent request whose answer cannot be sent: the kernel would-blocks every send (dead reader)
+            ev[at + max(1, c["pieces"][0][0] if c["pieces"] else 1)] = STALL_REQ
         elif c["kind"] == "persistent":
             ev[at + max(1, c["pieces"][0][0] if c["pieces"] else 1)] = PERSIST_REQ
         plans.append({"at": at, "ev": ev, "kind": c["kind"], "port": None, "D": None, "closed": None, "persist": False,
@@ -78,6 +84,12 @@ def run_case(case):
                 rig.send(p["port"], p["ev"][cyc])
                 p["sent"] += 1
                 fresh[i] = True
+        for p in plans:
+            if p["kind"] == "stalled" and p["port"] is not None and not p.get("blocked"):
+                ss = rig.ssock(p["port"])
+                if ss is not None:
+                    ss.send_script = [["block"]] * 100000       # every send of the server on this connection would-blocks
+                    p["blocked"] = True
         before_rx = {i: len(rig.rx[p["port"]]) for i, p in enumerate(plans) if p["port"] is not None}
         try:
             rig.server.service()
@@ -135,7 +147,7 @@ def _strategy():
         T = None if default_t else tock * ratio
         return {"tock": tock, "tymeout": T, "bare": bare, "conns": conns}
     piece = st.tuples(st.integers(1, 40), st.integers(1, 5)).map(list)
-    conn = st.fixed_dictionaries({"kind": st.sampled_from(["silent", "dribble", "dribble", "persistent"]),
+    conn = st.fixed_dictionaries({"kind": st.sampled_from(["silent", "dribble", "dribble", "persistent", "stalled"]),
                                   "at": st.integers(0, 6), "pieces": st.lists(piece, min_size=1, max_size=6)})
     return st.builds(build, st.integers(0, 5), st.sampled_from([1, 2, 3, 4, 8, 16, 32, 64]), st.booleans(),
                      st.sampled_from([False, False, False, False, True]), st.lists(conn, min_size=1, max_size=3)).filter(
